@@ -101,6 +101,7 @@ class _Access:
     def __init__(self, acc):
         if acc.get("refused"):
             raise SystemExit("gen vmflags: vmaccess refused: " + "; ".join(acc["refused"][:5]))
+        self.raw = acc
         self.funcs = {}
         for f in acc["funcs"]:
             if f["name"] in self.funcs:
@@ -218,6 +219,94 @@ def gen_vmflags():
         L.append("\n".join(fixed))
         L.append("]")
         L.append("")
+    # ---- big.Int -> int64/uint64 conversions (vmaccess) ----
+    L.append("/-- where the big.Int of a conversion comes from: an entry stack operand, a big.Int computed from operands, the result of")
+    L.append("    math.BigMin, a parameter of a helper, or something that is not an operand (block context, U256-normalised value …) -/")
+    L.append("inductive ConvSrc where")
+    L.append("  | back (k : Nat)")
+    L.append("  | derived")
+    L.append("  | min")
+    L.append("  | param (i : Nat)")
+    L.append("  | other")
+    L.append("deriving DecidableEq, Repr")
+    L.append("")
+    L.append("/-- what the converted machine integer feeds: a comparison, an argument of a Memory accessor / memory.store index, a slice bound,")
+    L.append("    an index of another slice, `*pc`, a stored value, an argument of another call, the function result -/")
+    L.append("inductive ConvUse where")
+    L.append("  | cmp | mem | slice | index | pc | store | arg | ret | other")
+    L.append("deriving DecidableEq, Repr")
+    L.append("")
+    L.append("/-- `direct`: an `if` on a call taking the same big.Int (Cmp, BitLen, destinations.has …) dominates the conversion;")
+    L.append("    `sum`: such an `if` on a big.Int.Add of which it is an addend; `min`: the value is the result of math.BigMin -/")
+    L.append("inductive ConvGuard where")
+    L.append("  | none | direct | sum | min")
+    L.append("deriving DecidableEq, Repr")
+    L.append("")
+    L.append("structure Conv where")
+    L.append("  fn : String        -- function containing the conversion (closures by maker name)")
+    L.append("  method : String    -- Uint64 | Int64")
+    L.append("  src : ConvSrc")
+    L.append("  uses : List ConvUse")
+    L.append("  guard : ConvGuard")
+    L.append("  guardFn : String   -- the function called on the big.Int in the dominating condition (Cmp, BitLen, has …)")
+    L.append("  detail : String    -- callee names of `arg` uses / of the guarding call (documentation)")
+    L.append("deriving DecidableEq, Repr")
+    L.append("")
+    def _src(x):
+        if x.startswith("back:"):
+            return "(.back %s)" % x[5:]
+        if x.startswith("param:"):
+            return "(.param %s)" % x[6:]
+        return "." + x
+    def _use(u):
+        k = u.split(":")[0]
+        return "." + (k if k in ("cmp", "mem", "slice", "index", "pc", "store", "arg") else "other")
+    rows = []
+    for c in acc.raw.get("convs") or []:
+        uses = []
+        for u in c.get("uses") or []:
+            uu = ".ret" if u == "other:*ssa.Return" else _use(u)
+            if uu not in uses:
+                uses.append(uu)
+        detail = ",".join(u for u in (c.get("uses") or []) if ":" in u) + ("|" + c["guard"] if c["guard"] != "none" else "")
+        rows.append("  ⟨%s, %s, %s, [%s], .%s, %s, %s⟩" % (lean_str(c["fn"]), lean_str(c["method"]), _src(c["src"]), ", ".join(uses),
+                                                         c["guard"].split(":")[0], lean_str(c["guard"].partition(":")[2]), lean_str(detail)))
+    L.append("def convs : List Conv := [")
+    L.append(",\n".join(rows))
+    L.append("]")
+    L.append("")
+    L.append("/-- a big.Int handed by an execute / gas function to a non-method helper of package vm -/")
+    L.append("structure HelperCall where")
+    L.append("  fn : String")
+    L.append("  helper : String")
+    L.append("  arg : Nat")
+    L.append("  opnd : Option Nat   -- some k: the entry stack operand Back(k)")
+    L.append("  global : String     -- name of a package-level big.Int (big32 …), else \"\"")
+    L.append("deriving DecidableEq, Repr")
+    L.append("")
+    rows = []
+    for h in acc.raw.get("helpers") or []:
+        o = h["opnd"]
+        rows.append("  ⟨%s, %s, %d, %s, %s⟩" % (lean_str(h["fn"]), lean_str(h["helper"]), h["arg"],
+                                                 "some %s" % o[5:] if o.startswith("back:") else "none",
+                                                 lean_str(o[7:] if o.startswith("global:") else "")))
+    L.append("def helperCalls : List HelperCall := [")
+    L.append(",\n".join(rows))
+    L.append("]")
+    L.append("")
+    L.append("/-- memory ranges per execute function name (the same data as OpF.execRanges, keyed by function) -/")
+    L.append("def fnRanges : List (String × List (Opnd × Opnd)) := [")
+    rows = []
+    for name in sorted(acc.funcs):
+        f = acc.funcs[name]
+        if f.get("hasMemory") and not f.get("memRefused") and not f.get("stackRefused") and f.get("ranges"):
+            rows.append("  (%s, [%s])" % (lean_str(name), ", ".join(acc.ranges(name))))
+    L.append(",\n".join(rows))
+    L.append("]")
+    L.append("")
+    L.append("/-- functions with a *Stack parameter whose conversions could not be analysed (stack analysis refused) -/")
+    L.append("def convUnanalysed : List String := [" + ", ".join(lean_str(n) for n in sorted(acc.funcs) if acc.funcs[n].get("stackRefused")) + "]")
+    L.append("")
     L.append("def table : Epoch → List OpF")
     for n in names:
         L.append(f"  | .{n} => {n}")
